@@ -184,33 +184,51 @@ func (s *dirStore) isManifest(dig string) bool {
 
 // ---- populating
 
-func putReg(h *simreg.Host, repo string, b *built, tag string) {
+// putReg writes the image into the model registry's state directly. fallback: also write the referrers of
+// every subject as an index under the fall-back tag (for hosts without the referrers API).
+func putReg(h *simreg.Host, repo string, b *built, tag string, fallback bool) {
 	h.Repo(repo)
+	h.Lock()
+	defer h.Unlock()
+	r := h.Repos[repo]
 	for _, d := range b.Order {
 		o := b.Objs[d]
 		if o.IsMa {
-			h.PutManifest(repo, "", o.MT, o.Raw)
+			r.Manifests[d] = simreg.Manifest{MediaType: o.MT, Body: append([]byte(nil), o.Raw...)}
 		} else {
-			h.PutBlob(repo, o.Raw)
+			r.Blobs[d] = append([]byte(nil), o.Raw...)
 		}
 	}
 	if tag != "" {
-		o := b.Objs[b.Root]
-		h.PutManifest(repo, tag, o.MT, o.Raw)
+		r.Tags[tag] = b.Root
+	}
+	if fallback {
+		for s, rl := range b.Refs {
+			l := []any{}
+			for _, e := range rl {
+				l = append(l, e)
+			}
+			rb := mustJSON(map[string]any{"schemaVersion": 2, "mediaType": mtOCIIndex, "manifests": l})
+			rd := digOf("sha256", rb)
+			r.Manifests[rd] = simreg.Manifest{MediaType: mtOCIIndex, Body: rb}
+			r.Tags[fallbackTag(s)] = rd
+		}
 	}
 }
 
 // putDir adds the image to a layout directory (creating it when needed) by hand.
 func putDir(dir string, b *built, tag string) error {
-	if err := os.MkdirAll(filepath.Join(dir, "blobs", "sha256"), 0o777); err != nil {
-		return err
+	for _, a := range []string{"sha256", b.Alg} {
+		if err := os.MkdirAll(filepath.Join(dir, "blobs", a), 0o777); err != nil {
+			return err
+		}
 	}
 	if err := os.WriteFile(filepath.Join(dir, "oci-layout"), []byte(`{"imageLayoutVersion":"1.0.0"}`), 0o666); err != nil {
 		return err
 	}
 	for _, d := range b.Order {
 		o := b.Objs[d]
-		if err := os.WriteFile(filepath.Join(dir, "blobs", "sha256", strings.TrimPrefix(d, "sha256:")), o.Raw, 0o666); err != nil {
+		if err := os.WriteFile(filepath.Join(dir, "blobs", b.Alg, strings.TrimPrefix(d, b.Alg+":")), o.Raw, 0o666); err != nil {
 			return err
 		}
 	}
@@ -240,7 +258,7 @@ func putDir(dir string, b *built, tag string) error {
 			return err
 		}
 		re := desc(mtOCIIndex, rd, len(rb))
-		re["annotations"] = map[string]string{"org.opencontainers.image.ref.name": strings.Replace(s, ":", "-", 1)}
+		re["annotations"] = map[string]string{"org.opencontainers.image.ref.name": fallbackTag(s)}
 		ms = append(ms, re)
 	}
 	idx["manifests"] = ms
@@ -277,8 +295,22 @@ type world struct {
 
 func newWorld(sc *scenario, img, bOld, bNew *built, scratch string) (*world, error) {
 	w := &world{net: simreg.NewNet()}
-	hs := w.net.AddHost(hostSrc, simreg.DefaultFeatures())
-	ht := w.net.AddHost(hostTgt, simreg.DefaultFeatures())
+	feat := simreg.DefaultFeatures()
+	switch sc.Feat {
+	case "", "default":
+	case "noref": // no referrers API: regclient falls back to the tag scheme
+		feat.ReferrersAPI = false
+	case "nomount": // no cross repository mount, no single request upload
+		feat.Mount = false
+		feat.AnonBlobPOSTPut = false
+	case "nohead": // no Docker-Content-Digest header
+		feat.HeadDigest = false
+	default:
+		return nil, fmt.Errorf("unknown feature set %q", sc.Feat)
+	}
+	hs := w.net.AddHost(hostSrc, feat)
+	ht := w.net.AddHost(hostTgt, feat)
+	fb := !feat.ReferrersAPI
 	srcDir := filepath.Join(scratch, "src")
 	outDir := filepath.Join(scratch, "out")
 	baseDir := filepath.Join(scratch, "base")
@@ -298,9 +330,9 @@ func newWorld(sc *scenario, img, bOld, bNew *built, scratch string) (*world, err
 		w.refOld = "ocidir://" + baseDir + ":old"
 		w.refNew = "ocidir://" + baseDir + ":new"
 	} else {
-		putReg(hs, repoSrc, img, srcTag)
-		putReg(hs, repoBase, bOld, "old")
-		putReg(hs, repoBase, bNew, "new")
+		putReg(hs, repoSrc, img, srcTag, fb)
+		putReg(hs, repoBase, bOld, "old", fb)
+		putReg(hs, repoBase, bNew, "new", fb)
 		w.src = &regStore{hs, repoSrc}
 		w.refSrc = hostSrc + "/" + repoSrc + ":" + srcTag
 		w.refOld = hostSrc + "/" + repoBase + ":old"
@@ -323,6 +355,27 @@ func newWorld(sc *scenario, img, bOld, bNew *built, scratch string) (*world, err
 		w.tgt, tgtBase, w.tgtIsDir = &dirStore{outDir}, "ocidir://"+outDir, true
 	default:
 		return nil, fmt.Errorf("unknown placement %q", sc.Place)
+	}
+	// the target may already hold the source image under another tag (blobs and manifests present)
+	if sc.Pre == 1 && !w.same {
+		if w.tgtIsDir {
+			if err := putDir(outDir, img, "old"); err != nil {
+				return nil, err
+			}
+		} else {
+			putReg(w.tgtHost, w.tgtRepo, img, "old", fb)
+		}
+	}
+	// the source may be named by digest instead of by tag
+	if sc.SrcRef == "digest" && sc.Tgt == "replace" {
+		return nil, fmt.Errorf("source by digest cannot be replaced")
+	}
+	if sc.SrcRef == "digest" {
+		if srcIsDir {
+			w.refSrc = "ocidir://" + srcDir + "@" + img.Root
+		} else {
+			w.refSrc = hostSrc + "/" + repoSrc + "@" + img.Root
+		}
 	}
 	switch {
 	case w.same && sc.Tgt == "digest":
